@@ -651,6 +651,23 @@ func CtxOrigin(v ssa.Value, allowedFields map[*types.Var]bool, depth int) (strin
 				return CtxOrigin(a, allowedFields, depth+1)
 			}
 		}
+		// an accessor without a context argument: what it returns
+		if f := x.Call.StaticCallee(); f != nil && len(f.Blocks) > 0 && f.Signature.Results().Len() == 1 {
+			n := 0
+			for _, b := range f.Blocks {
+				ret, ok := b.Instrs[len(b.Instrs)-1].(*ssa.Return)
+				if !ok || len(ret.Results) != 1 {
+					continue
+				}
+				n++
+				if why, ok := CtxOrigin(ret.Results[0], allowedFields, depth+1); !ok {
+					return why, false
+				}
+			}
+			if n > 0 {
+				return "what " + f.Name() + "() returns", true
+			}
+		}
 	}
 	return "context of unrecognised origin: " + v.String(), false
 }
